@@ -28,6 +28,7 @@ func main() {
 	}
 	seed, _ := strconv.Atoi(os.Getenv("VERIF_SEED"))
 	os.Unsetenv("GOWORK")
+	chk.VerifDir = *verif
 	start := time.Now()
 	env := []string{"GOFLAGS=-mod=mod", "GOPROXY=off", "GOSUMDB=off", "GOTOOLCHAIN=local", "GOWORK=off"}
 
